@@ -11,6 +11,7 @@ mod oracles;
 mod c01_emitters;
 mod c01_pipeline;
 mod c03_frames;
+mod c05_spans;
 mod c15_codecs;
 #[cfg(not(kani))]
 mod table;
